@@ -867,6 +867,16 @@ def _pow_queries(ctx: Ctx, stamps: list[int], n: int) -> None:
     if seen:
         ok, total = _guarded(ctx, "chain_work", lambda: chain_work(seen))
         ctx.check(P, "work-equals-core", ok and total == sum(ar.block_proof(int.from_bytes(b, "big")) for b in seen), "chain_work is not the sum of GetBlockProof", site="chain_work")
+        # a header Core credits no work (sign flag, zero, overflow) anywhere in the chain: refused as it is alone, or
+        # credited 0 -- never the work of its magnitude. Its valid twin sits right in front of it half of the time
+        at = ch.draw(len(seen) + 1, "chain.bad.at")
+        twin = seen[at - 1] if at and ch.draw(2, "chain.bad.twin") else _compact_draw(ctx).to_bytes(4, "big")
+        bad = ch.pick([bytes([twin[0], twin[1] | 0x80, twin[2], twin[3]]), bytes([twin[0], 0, 0, 0]), bytes([0xFF, twin[1] & 0x7F or 1, twin[2], twin[3]])], "chain.bad.kind")
+        if ar.block_proof(int.from_bytes(bad, "big")) == 0:
+            chain = [*seen[:at], bad, *seen[at:]]
+            ok, total = _guarded(ctx, "chain_work", lambda: chain_work(chain))
+            ctx.check(P, "work-equals-core", not ok or total == sum(ar.block_proof(int.from_bytes(b, "big")) for b in chain), lambda: f"chain_work credits {total} to a chain holding {bad.hex()} (GetBlockProof: 0) at {at}", site="chain_work/workless-member")
+            ctx.probe("chain-with-workless-member")
 
 
 def _pow(ctx: Ctx) -> None:
